@@ -105,6 +105,28 @@ class C05(props.Prop):
         have_apply = bool(rec.applies)
         accepted = [(c['dig'], c['seq1']) for c in rec.checks
                     if c['verdict'] and c['seq1'] is not None]
+        # command side: what the command read during an accepted check must be
+        # the candidate of that check (compared without white space, so that
+        # leaves that are not single tokens do not matter)
+        for c in rec.checks:
+            if not c['verdict'] or c.get('sq') is None:
+                continue
+            for i in c['inv']:
+                d = rec.inv[i]
+                if d.get('sq') is not None and d['sq'] != c['sq'] and any(
+                        w['dig'] == c['dig'] for w in rec.writes):
+                    v.violate(
+                        'accepted-on-other-content',
+                        'C05:accepted-on-other-content',
+                        'an adopted candidate was accepted although the '
+                        'command was run on a different content (its '
+                        'candidate file was overwritten before the command '
+                        'read it)',
+                        candidate=rec.text(c['dig'])[:200],
+                        command_read=rec.text(d['dig'])[:200])
+                    break
+            if v.violations:
+                break
         for k, w in enumerate(rec.writes, 1):
             if w['actor'] != 'main':
                 v.violate('write-by-non-main', 'C05:write-by-non-main',
